@@ -467,13 +467,17 @@ where
     const LINE_FEED: u8 = b'\n';
     const CARRIAGE_RETURN: u8 = b'\r';
 
+    // The buffer can already hold data, e.g., the required fields of a record: a carriage return is
+    // only part of the line terminator when it was read here.
+    let start = buf.len();
+
     match reader.read_until(LINE_FEED, buf)? {
         0 => Ok(0),
         n => {
             if buf.ends_with(&[LINE_FEED]) {
                 buf.pop();
 
-                if buf.ends_with(&[CARRIAGE_RETURN]) {
+                if buf.len() > start && buf.ends_with(&[CARRIAGE_RETURN]) {
                     buf.pop();
                 }
             }
